@@ -128,6 +128,15 @@ def strip(t):
     return t
 
 
+def unclone(t):
+    """Remove clone wrappers at every depth (value-equal copies)."""
+    if not isinstance(t, tuple):
+        return t
+    if t and t[0] == "clone":
+        return unclone(t[1])
+    return tuple(unclone(x) for x in t)
+
+
 def lookup(t):
     """(collection term, key term) when t denotes the element stored under a key: `v[i]`, the Some payload of
     `v.get(i)` (also through unwrap / expect), `map[k]`, the payload of `map.get(k)`; else None."""
